@@ -619,6 +619,15 @@ func TestVfC05Rollover(t *testing.T) {
 			cancel   context.CancelFunc
 		}
 		var held *heldExch
+		// In one run of three the held exchange is not answered: the transport is closed while that exchange still waits on
+		// a connection that has meanwhile run out of wire IDs (and others have moved on to the next connection). Close has
+		// to reach that connection too: the exchange returns and every connection the transport dialled is closed.
+		closeWhileHeld := rapid.IntRange(0, 2).Draw(t, "closeWhileHeld") == 0
+		releaseAt := holdAt + holdFor
+		if closeWhileHeld && releaseAt < 65536+20 {
+			releaseAt = 65536 + 20
+		}
+		closedEarly := false
 		for i := 0; i < total; i++ {
 			if i == holdAt {
 				h := &heldExch{callerID: 0xABCD, tok: 2000000, rc: make(chan *dnsmsg.Msg, 1), errc: make(chan error, 1)}
@@ -633,7 +642,43 @@ func TestVfC05Rollover(t *testing.T) {
 				h.wires = waitWire(h.tok)
 				held = h
 			}
-			if held != nil && i == holdAt+holdFor {
+			if held != nil && i == releaseAt && closeWhileHeld {
+				done := make(chan struct{})
+				go func() { tr.Close(); close(done) }()
+				select {
+				case <-done:
+				case <-time.After(vfStall):
+					t.Fatalf("Close() of the pipelined transport did not return (one exchange in flight on a connection out of wire IDs)")
+				}
+				select {
+				case m := <-held.rc:
+					<-held.errc
+					if m != nil {
+						dnsmsg.ReleaseMsg(m)
+					}
+				case <-time.After(2 * time.Second):
+					t.Fatalf("an exchange in flight on a connection that had run out of wire IDs (wires %v) has not returned 2 s after Close() of its transport", held.wires)
+				}
+				for until := time.Now().Add(2 * time.Second); ; time.Sleep(time.Millisecond) {
+					open := -1
+					for ci, c := range srv.snapshot() {
+						if !c.ClientClosed() {
+							open = ci
+						}
+					}
+					if open < 0 {
+						break
+					}
+					if time.Now().After(until) {
+						t.Fatalf("connection %d of %d dialled by the pipelined transport is still open 2 s after Close() (the held exchange used wires %v; %d exchanges had been made)", open, len(srv.snapshot()), held.wires, i)
+					}
+				}
+				held.cancel()
+				held = nil
+				closedEarly = true
+				break
+			}
+			if held != nil && i == releaseAt {
 				w := held.wires[len(held.wires)-1]
 				if c := srv.snapshot()[w.conn]; !c.ClientClosed() {
 					deliver(w, held.tok)
@@ -733,7 +778,7 @@ func TestVfC05Rollover(t *testing.T) {
 		if len(srv.snapshot()) < 2 {
 			t.Fatalf("%d exchanges were carried by a single connection: wire IDs must have been reused", total)
 		}
-		st.Case(vfkit.Fingerprint(fmt.Sprint(abandon), lateGap, total, srv.datagram), true, []string{fmt.Sprintf("conns=%d", len(srv.snapshot()))}, func() any {
+		st.Case(vfkit.Fingerprint(fmt.Sprint(abandon), lateGap, total, srv.datagram, closedEarly), true, []string{fmt.Sprintf("conns=%d", len(srv.snapshot())), fmt.Sprintf("closed-with-an-exchange-held-on-an-exhausted-connection=%v", closedEarly)}, func() any {
 			return map[string]any{"exchanges": total, "abandoned": nAbandon, "late_replies": nLate, "connections": len(srv.snapshot())}
 		})
 	})
